@@ -81,6 +81,30 @@
 // series was missing from the scrape. Regression replay:
 // replays/regress/C18/exp_histogram_scale_above_8.json.
 //
+//   - a scrape of an exporter that no MeterProvider knows (Case.Early: the
+//     registry is scraped before NewMeterProvider(WithReader(exporter));
+//     Case.Ghost: a second exporter with its own registry that is never
+//     registered, scraped right after every scrape of the first) may expose no
+//     series of any instrument, no otel_scope_info and no resource attribute
+//     (a label-less target_info would claim nothing and is not held against
+//     it; the handled ErrReaderNotRegistered is expected). Every scrape after
+//     registration is held to the full oracle as if the early one had not
+//     happened.
+//   - exemplars: measurements made in a sampled span context (ids derived
+//     from the position of the measurement) on instruments whose View filter
+//     drops "ex.url" (it travels as the exemplar's filtered attribute), short
+//     or 89 characters long. Values, counts and buckets stay exactly the
+//     ManualReader's in every case. An exposed exemplar must be the record of
+//     ONE sampled measurement of that very series (trace_id, span_id, value,
+//     filtered attribute) and, for histograms, sit on the bucket its value
+//     belongs to (client_golang: last exemplar on the counter, per bucket on
+//     histograms, an explicit +Inf bucket when needed). It MUST be there
+//     (counter: one; histogram: on the bucket of every sampled measurement)
+//     when no sampled measurement of the series so far carries the long
+//     value; which one of several is the SDK reservoir's business. The
+//     handled "exemplar labels have N runes" error is tolerated only once a
+//     measurement with the long value has been made.
+//
 // Defect found by this check and since repaired in /repo (see
 // known_findings.json, "fixed: property=C18 ... ':'"): under the legacy scheme
 // the exporter escaped attribute keys with the METRIC name rule, which keeps
@@ -98,7 +122,7 @@ import (
 func TestScrapeModel(t *testing.T) {
 	vk.Run(t, vk.Spec[Case]{
 		Property: "C18", Check: "scrape_model",
-		Rule: "a registry: exporter options x {UTF-8, legacy} scheme, resource, 1..2 scopes, 1..6 instruments (14 kinds; histograms explicit-bucket or base-2 exponential with MaxSize {160,20,4} x MaxScale {20,3,0,-2} and positive/negative/zero values) with grammar names biased to total/unit words, all table units + unknown ones, one (often colliding) key set with 1..5 tuples, exact measurements, 1..3 sequential scrapes each compared with a ManualReader on the same provider; " +
+		Rule: "a registry: exporter options x {UTF-8, legacy} scheme, resource, 1..2 scopes, 1..6 instruments (14 kinds; histograms explicit-bucket or base-2 exponential with MaxSize {160,20,4} x MaxScale {20,3,0,-2} and positive/negative/zero values) with grammar names biased to total/unit words, all table units + unknown ones, one (often colliding) key set with 1..5 tuples, exact measurements (some in sampled span contexts, with a View-filtered attribute that becomes the exemplar's, short or over-long), optionally a scrape before the exporter is registered and a second never-registered exporter scraped in between, 1..3 sequential scrapes each compared with a ManualReader on the same provider; " +
 			"non-trivial = some instrument name contains 'total' or a unit word, or attribute keys collide after sanitisation under the legacy scheme; distinct = distinct case encodings",
 		Quick: 4000, Thorough: 40000,
 		Gen: genCase(false), Run: runSeq,
